@@ -23,6 +23,8 @@ def main(argv):
     patches = [a for a in argv if a.endswith((".diff", ".patch"))]
     from rules import registry
     props = sorted(registry.CLAIMED)
+    if "--props" in argv:
+        props = argv[argv.index("--props") + 1].split(",")
     wt = tempfile.mkdtemp(prefix="okref-")
     ev = tempfile.mkdtemp(prefix="okref-ev-")
     os.rmdir(wt)
